@@ -296,14 +296,14 @@ pub fn channel(rng: &mut StdRng, family: &str, bps: usize, n: usize) -> Vec<i32>
                 }
             }
         }
-        "dcnoise" => {
+        "dcnoise" | "dcedge" => {
             // Threshold-directed: a DC level L plus noise.  The LPC coefficients of such a signal have one
             // sign and sum to about 1.0, i.e. sum|coef| ~ 2^shift (2^15 at full precision), so that
             // max|x| * sum|coef| crosses 2^31 at L ~ 2^16 and 2^32 at L ~ 2^17: the window in which the
             // 32-bit fast path of the residual computation is *almost* applicable (lpc.rs compute_error).
-            let e = rng.gen_range(15.3..17.4f64);
+            let e = if family == "dcedge" { rng.gen_range(15.7..16.3f64) } else { rng.gen_range(15.3..17.4f64) };
             let level = (2f64.powf(e) as i64).min(hi - hi / 4).max(1);
-            let amp = ((level as f64) * rng.gen_range(0.08..0.25)) as i64 + 1;
+            let amp = ((level as f64) * if family == "dcedge" { rng.gen_range(0.12..0.22) } else { rng.gen_range(0.08..0.25) }) as i64 + 1;
             let sign = if rng.gen_bool(0.5) { 1 } else { -1 };
             for x in v.iter_mut() {
                 *x = clampw(sign * (level + rng.gen_range(-amp..=amp)), bps);
